@@ -19,7 +19,7 @@ LEVEL = "exploration"
 RULE = (
     "server side: requested protocolVersion drawn from {each supported version, every well-formed calendar date string with year 1990..2189 "
     "(74,400, enumerated exhaustively), malformed near-misses, non-strings, absent} x {with, without clientInfo} dispatched through ProtocolHandler; "
-    "histories of 2..6 handshakes on one handler (all of length 2 and 3 over 5 versions x every session-reuse pattern, longer ones drawn) with every answer re-read after the history; "
+    "histories of 2..6 handshakes on one handler (all of length 2 and 3 over 5 versions x every session-reuse pattern, longer ones drawn; sequential or all in flight concurrently) with every answer re-read after the history; "
     "end-to-end: send_initialize with every supported-list (258) x preferred (8) of the C03 universe wired to ProtocolHandler.handle_message through an "
     "in-memory pump that serialises both directions as a transport would; oracle: answered version in the server's supported set, equals the request's when supported, "
     "one new session carrying the answered version; end-to-end outcome is agreement on a version both sides support or VersionMismatchError; "
@@ -44,10 +44,18 @@ def _handler():
     return ProtocolHandler(ServerInfo(name="srv", version="1.0"), ServerCapabilities())
 
 
+_PINNED: Optional[List[str]] = None
+
+
 def _supported() -> List[str]:
+    """the server's supported set as configured when the process started (a copy: whatever happens to the live
+    list at run time must not move the reference)"""
+    global _PINNED
     from chuk_mcp.protocol.types.versioning import SUPPORTED_VERSIONS
 
-    return list(SUPPORTED_VERSIONS)
+    if _PINNED is None:
+        _PINNED = list(SUPPORTED_VERSIONS)
+    return list(_PINNED)
 
 
 ABSENT = "$absent"
@@ -66,17 +74,28 @@ def check_seq(case: Dict[str, Any]) -> Outcome:
     kept: List[Dict[str, Any]] = []
     sids: List[Optional[str]] = []
 
+    async def one(k: int, st_: Dict[str, Any], sid_in: Optional[str]):
+        params: Dict[str, Any] = {"capabilities": {}, "clientInfo": {"name": f"c{k}", "version": "1"}}
+        if st_["version"] != ABSENT:
+            params["protocolVersion"] = st_["version"]
+        msg = parse_message({"jsonrpc": "2.0", "id": k, "method": "initialize", "params": params})
+        resp, sid = await h.handle_message(msg, sid_in)
+        return {"resp": resp, "now": json.loads(resp.model_dump_json(exclude_none=True)) if resp is not None else None, "sid": sid, "sid_in": sid_in}
+
     async def go():
+        if case.get("concurrent"):
+            # several clients of one server: their initialize requests are in flight at the same time
+            rs = await asyncio.gather(*[one(k, st_, None) for k, st_ in enumerate(steps)])
+            for r_ in rs:
+                sids.append(r_["sid"])
+                kept.append(r_)
+            return
         for k, st_ in enumerate(steps):
-            params: Dict[str, Any] = {"capabilities": {}, "clientInfo": {"name": f"c{k}", "version": "1"}}
-            if st_["version"] != ABSENT:
-                params["protocolVersion"] = st_["version"]
-            msg = parse_message({"jsonrpc": "2.0", "id": k, "method": "initialize", "params": params})
             reuse = st_.get("reuse")
             sid_in = sids[reuse] if reuse is not None and reuse < len(sids) else None
-            resp, sid = await h.handle_message(msg, sid_in)
-            sids.append(sid or sid_in)
-            kept.append({"resp": resp, "now": json.loads(resp.model_dump_json(exclude_none=True)) if resp is not None else None, "sid": sid, "sid_in": sid_in})
+            r_ = await one(k, st_, sid_in)
+            sids.append(r_["sid"] or sid_in)
+            kept.append(r_)
 
     try:
         run_virtual(go)
@@ -85,7 +104,7 @@ def check_seq(case: Dict[str, Any]) -> Outcome:
         return out
     versions = [st_["version"] for st_ in steps]
     out.nontrivial = len({json.dumps(v) for v in versions}) > 1
-    out.classes = ("history", f"len:{len(steps)}", "mixed-versions" if out.nontrivial else "one-version", "with-reuse" if any(st_.get("reuse") is not None for st_ in steps) else "no-reuse")
+    out.classes = ("history", f"len:{len(steps)}", "mixed-versions" if out.nontrivial else "one-version", "with-reuse" if any(st_.get("reuse") is not None for st_ in steps) else "no-reuse") + (("concurrent",) if case.get("concurrent") else ())
     sessions = h.session_manager.list_sessions()
     last_for_sid: Dict[str, Any] = {}
     for k, (st_, kp) in enumerate(zip(steps, kept)):
@@ -337,7 +356,12 @@ def job_seq(col: Collector, seed: int, tier: str) -> None:
             for reuse in itertools.product(*[[None] + list(range(k)) for k in range(L)]):
                 case = {"seq": [{"version": v, "reuse": r} for v, r in zip(vs, reuse)]}
                 col.record(case, check(case))
-    col.exhaustive_parts.append("handshake histories on one handler: length 2 and 3 over {3 supported versions, an unsupported date, absent} x every session-reuse pattern")
+    # the same requests in flight at the same time (no session reuse)
+    for L in (2, 3):
+        for vs in itertools.product(SEQ_VERSIONS + ["latest"], repeat=L):
+            case = {"seq": [{"version": v, "reuse": None} for v in vs], "concurrent": True}
+            col.record(case, check(case))
+    col.exhaustive_parts.append("handshake histories on one handler: length 2 and 3 over {3 supported versions, an unsupported date, absent} x every session-reuse pattern; and all 2- and 3-tuples over 6 versions dispatched concurrently")
 
 
 @st.composite
@@ -346,7 +370,10 @@ def seq_cases(draw):
     seq = []
     for k in range(n):
         seq.append({"version": draw(st.one_of(st.sampled_from(SEQ_VERSIONS), _versions)), "reuse": draw(st.one_of(st.none(), st.integers(0, k - 1))) if k else None})
-    return {"seq": seq}
+    case = {"seq": seq}
+    if draw(st.integers(0, 2)) == 0:
+        case = {"seq": [dict(x, reuse=None) for x in seq], "concurrent": True}
+    return case
 
 
 def job_seq_hyp(col: Collector, seed: int, tier: str, shard: int, n: int) -> None:
